@@ -3,7 +3,9 @@
 package logsim
 
 import (
+	"bytes"
 	"fmt"
+	"regexp"
 	"strings"
 
 	"github.com/0chain/common/core/logging"
@@ -16,6 +18,8 @@ import (
 var raceLog = sched.OpenRaceLog()
 
 const SchedBuild = true
+
+var lineRe = regexp.MustCompile(`^\S+\tINFO\t(m[a-z]*\d+)\t\{"id": "(m[a-z]*\d+)"\}$`)
 
 // ExecSched: sequential setup (Ops), then writer/reader tasks under the seeded scheduler.
 func ExecSched(s *Script) *sim.Outcome {
@@ -31,6 +35,7 @@ func ExecSched(s *Script) *sim.Outcome {
 	nt := len(s.Tasks)
 	written := make([][]string, nt) // per task, program order
 	snaps := make([][][]string, nt) // per task: GetLogs snapshots (messages copied out)
+	dumps := make([][]string, nt)   // per task: WriteLogs outputs
 	fns := make([]func(), nt)
 	est := 0
 	for ti := range s.Tasks {
@@ -70,6 +75,10 @@ func ExecSched(s *Script) *sim.Outcome {
 						}
 					}
 					snaps[ti] = append(snaps[ti], msgs)
+				case "dump":
+					var buf bytes.Buffer
+					w.ML.WriteLogs(&buf, logging.IncludeFields)
+					dumps[ti] = append(dumps[ti], buf.String())
 				}
 			}
 		}
@@ -114,6 +123,25 @@ func ExecSched(s *Script) *sim.Outcome {
 		for ti := range snaps {
 			for _, sn := range snaps[ti] {
 				w.judge(fmt.Sprintf("snapshot-by-task-%d", ti), sn, setup, written, total, false)
+			}
+		}
+		for ti := range dumps {
+			for _, d := range dumps[ti] {
+				// one line per entry, the entry's id as message and as its field, nothing else
+				var ids []string
+				for _, line := range strings.Split(d, "\n") {
+					if line == "" {
+						continue
+					}
+					m := lineRe.FindStringSubmatch(line)
+					if m == nil || m[1] != m[2] {
+						w.Fail("c20.concurrent", "dump:garbled-line", "WriteLogs by task %d wrote the line %q: not one entry with its own field", ti, line)
+						break
+					}
+					ids = append(ids, m[1])
+				}
+				w.Stats.Inc("probe.concurrent-dump")
+				w.judge(fmt.Sprintf("dump-by-task-%d", ti), ids, setup, written, total, false)
 			}
 		}
 	}
